@@ -180,6 +180,20 @@ def check_dask(case, ctx):
             except Exception:  # noqa: BLE001 - the probe is advisory
                 pass
         msg = ops.compare(ra, rb, tol, fam, "%s chunks=%s sched=%s vs in-memory" % (name, case["chunks"], case["sched"]), atol_rel=(1e-7 if fam in ("width", "widthf", "peakwidth") else None))
+        if msg and fam == "fit":
+            # a least-squares fit is judged by what it minimises: where the peak region is not sampled by the grid a parameter
+            # (gamma) is not identifiable and any value gives the same misfit; the dask result must fit as well as the in-memory one
+            try:
+                ef = x.spec.oned()
+                sa = ((ra["efth"].transpose(*ef.dims) - ef) ** 2).sum("freq")
+                sb = ((rb["efth"].transpose(*ef.dims) - ef) ** 2).sum("freq")
+                floor = 1e-12 * (ef ** 2).sum("freq")
+                both_nan = np.isnan(sa.values) & np.isnan(sb.values)
+                if np.all(both_nan | (sb.values <= sa.values * (1 + 1e-4) + floor.values)) and not np.any(np.isnan(sb.values) & ~np.isnan(sa.values)):
+                    ctx.label("fit-equally-good-optimum(accepted)")
+                    msg = None
+            except Exception:  # noqa: BLE001
+                pass
         if msg:
             raise Violation("dask-differs", msg)
     ctx.nt(split_spec or case["sched"] not in ("synchronous", "threads1"))
